@@ -27,7 +27,7 @@ EXPLANATION = (
     'R8 the hover / stop set-points and the high-level take-off, land, go-to and stop commands the primitives are streamed through have the '
     'firmware\'s field order, signs and formats for both protocol generations (shared with C08.R1). Real-time period and thread interleavings are not decided.')
 ASSUMPTIONS = ['documented axis convention: positive X forward, positive Y left, positive Z up', 'Thread.join() returns after run() returned']
-FLOORS = {'R1': 9, 'R2': 2, 'R3': 3, 'R4': 20, 'R5': 8, 'R6': 6, 'R7': 8, 'R8': 20}
+FLOORS = {'R1': 9, 'R2': 2, 'R3': 3, 'R4': 20, 'R5': 9, 'R6': 6, 'R7': 8, 'R8': 20}
 
 
 def seq_calls(func):
@@ -299,6 +299,13 @@ def check(ctx):
         got = sorted((tuple(sorted(p.fact_keys())), norm(p.returned())) for p in ps)
         a = f.params[1]
         ctx.inst('R7', f, 'default:' + fn, got == sorted([((fact_key('%s is self.DEFAULT' % a, True),), attr), ((fact_key('%s is self.DEFAULT' % a, False),), a)]), '%s falls back to %s only for DEFAULT; %s' % (fn, attr, got))
+
+    svs = M_.method('_set_vel_setpoint')
+    pc = [c for c in walk_own(svs.node) if method_call(c, 'set_vel_setpoint')]
+    rebound = [norm(t) for s_ in walk_own(svs.node) if isinstance(s_, (ast.Assign, ast.AugAssign)) for t in (s_.targets if isinstance(s_, ast.Assign) else [s_.target]) if norm(t) in svs.params]
+    ctx.inst('R5', svs, 'velocity-passed-unchanged', len(pc) == 1 and [norm(a) for a in pc[0].args] == svs.params[1:5] and not rebound,
+             'the velocity a primitive computed (distance / time) reaches the set-point thread unchanged: clamping or rescaling here breaks velocity x duration = displacement; '
+             'call %s, parameters re-bound: %s' % ([norm(c) for c in pc], rebound or 'none'))
 
     # ---- R8: the set-points the primitives are streamed through reach the firmware as commanded (shared with C08.R1) ----
     from .c08 import sender_layout_for
